@@ -30,10 +30,22 @@ import time
 import traceback
 
 ROOT = os.path.dirname(os.path.dirname(os.path.abspath(__file__)))
+# Output root (evidence/, replays/, .work/).  /verif unless VERIF_OUT is set, which only the
+# mutation experiments do, so that runs against scratch worktrees never touch /verif/evidence.
+OUT = os.environ.get("VERIF_OUT") or ROOT
 MAX_REPLAY_FILES = 12
 MAX_SAMPLES = 6
 
 _MOD = None
+
+
+def workdir(pid):
+    """Per-check scratch directory (under /verif/.work, removed at the end of the run).
+    Property modules that need files (SCSV, NPZ, TOML) create them here, in a
+    sub-directory named after os.getpid() so that forked workers never collide."""
+    d = os.path.join(OUT, ".work", pid, str(os.getpid()))
+    os.makedirs(d, exist_ok=True)
+    return d
 
 
 def empty_result():
@@ -172,7 +184,7 @@ def main(argv=None):
     if a.replay:
         return do_replay(pid, rep)
 
-    work = os.path.join(ROOT, ".work", pid)
+    work = os.path.join(OUT, ".work", pid)
     os.makedirs(work, exist_ok=True)
 
     keys = list(_MOD.gen_cases(tier, seed))
@@ -308,7 +320,7 @@ def main(argv=None):
 
     confirmed = []
     if fresh:
-        rdir = os.path.join(ROOT, "replays", pid)
+        rdir = os.path.join(OUT, "replays", pid)
         os.makedirs(rdir, exist_ok=True)
         # one replay per (clause, first few keys): shortest first (enumeration order kept)
         per_clause = {}
@@ -361,6 +373,7 @@ def main(argv=None):
         "known_findings_hit": {fid: cnt for fid, (e, cnt) in known_hit.items()},
         "fresh_violations": len(fresh),
         "warmup_s": round(t_warm, 1),
+        "pydrex_source": os.path.dirname(sys.modules["pydrex"].__file__) if "pydrex" in sys.modules else "?",
     }
     cov.update(extra)
     ev = {
@@ -373,8 +386,8 @@ def main(argv=None):
         "wall_s": round(wall, 2),
         "violations": len(fresh),
     }
-    os.makedirs(os.path.join(ROOT, "evidence"), exist_ok=True)
-    with open(os.path.join(ROOT, "evidence", pid + ".json"), "w") as f:
+    os.makedirs(os.path.join(OUT, "evidence"), exist_ok=True)
+    with open(os.path.join(OUT, "evidence", pid + ".json"), "w") as f:
         json.dump(ev, f, indent=1, sort_keys=True, default=_jdefault)
         f.write("\n")
 
